@@ -109,6 +109,82 @@ def default_inlinable(prog, caller, callee, keep):
     return True
 
 
+COMBINATORS = {
+    # std combinator -> (value when the Option is None, "closure result" when Some)
+    r"^std::option::Option::<T>::is_some_and$": ("false",),
+    r"^std::option::Option::<T>::is_none_or$": ("true",),
+}
+
+
+def _closure_of(prog, fn_d, operand):
+    """uid of the local closure an operand holds (a local whose only definition is a closure
+    aggregate), else None"""
+    if operand[0] not in ("m", "c") or operand[1][1]:
+        return None
+    l = operand[1][0]
+    defs = []
+    for bl in fn_d["blocks"]:
+        for s in bl["s"]:
+            if s[0] == "=" and s[1][0] == l and not s[1][1]:
+                defs.append(s[2])
+        t = bl["t"]
+        if t[0] == "call" and t[3][0] == l:
+            defs.append(None)
+    if len(defs) != 1 or defs[0] is None or defs[0][0] != "agg":
+        return None
+    kind = defs[0][1]
+    if isinstance(kind, list) and kind[0] == "closure" and kind[1] in prog.fns:
+        return kind[1]
+    return None
+
+
+def _expand_combinator(prog, d, b, t, none_value, depth, keep, inlinable, seen):
+    """`dest = Option::is_some_and(opt, closure)` ->
+         switch discr(opt) { None: dest = const; Some: dest = <closure body>(closure, payload) }
+    with the closure's MIR spliced in.  Returns True when the block was rewritten."""
+    args, dest, target = t[2], t[3], t[4]
+    if target is None or len(args) != 2:
+        return False
+    uid = _closure_of(prog, d, args[1])
+    if uid is None:
+        return False
+    clo = prog.fns[uid]
+    if clo.argc != 2 or (clo.d["locals"][1][0] or "").startswith("&"):
+        return False
+    opt = args[0]
+    if opt[0] not in ("m", "c"):
+        return False
+    loc = t[6] if len(t) > 6 else [0, 0, False]
+    if depth > 1:
+        clo = inline(prog, clo, keep, depth - 1, inlinable, seen)
+    opt_place = opt[1]
+    # a temporary for the discriminant
+    dl = len(d["locals"])
+    d["locals"].append(["isize", None])
+    loff = len(d["locals"])
+    d["locals"].extend(copy.deepcopy(clo.d["locals"]))
+    nblocks = len(d["blocks"])
+    b_none, b_some, boff = nblocks, nblocks + 1, nblocks + 2
+    cval = ["k", "bool", none_value, {"int": "1" if none_value == "true" else "0"}]
+    d["blocks"].append({"s": [["=", copy.deepcopy(dest), ["use", cval], loc]], "t": ["goto", target], "c": False})
+    payload = [opt_place[0], list(opt_place[1]) + [["d", 1, "Some"], ["f", 0, "0"]]]
+    d["blocks"].append({"s": [["=", [loff + 1, []], ["use", copy.deepcopy(args[1])], loc],
+                              ["=", [loff + 2, []], ["use", ["m", payload]], loc]],
+                        "t": ["goto", boff], "c": False})
+    for cb in clo.d["blocks"]:
+        ns = [_remap_stmt(s, loff) for s in cb["s"]]
+        ct = cb["t"]
+        if ct[0] == "ret":
+            ns.append(["=", copy.deepcopy(dest), ["use", ["m", [loff, []]]], loc])
+            nt = ["goto", target]
+        else:
+            nt = _remap_term(ct, loff, boff)
+        d["blocks"].append({"s": ns, "t": nt, "c": cb["c"]})
+    d["blocks"][b]["s"] = d["blocks"][b]["s"] + [["=", [dl, []], ["discr", copy.deepcopy(opt_place), "std::option::Option", [["0", "None"], ["1", "Some"]]], loc]]
+    d["blocks"][b]["t"] = ["switch", ["m", [dl, []]], [["0", b_none]], b_some, "isize", loc]
+    return True
+
+
 def inline(prog, fn, keep=None, depth=2, inlinable=None, _seen=None):
     """-> Fn (a new object when something was inlined, else `fn` itself)"""
     inlinable = inlinable or default_inlinable
@@ -125,6 +201,17 @@ def inline(prog, fn, keep=None, depth=2, inlinable=None, _seen=None):
         if t[0] != "call":
             continue
         cal = t[1]
+        nm = cal.get("name") if isinstance(cal, dict) else None
+        comb = next((v for r, v in COMBINATORS.items() if nm and re.search(r, nm)), None)
+        if comb is not None:
+            if d is None:
+                d = dict(fn.d)
+                d["blocks"] = [dict(s=list(bl["s"]), t=bl["t"], c=bl["c"]) for bl in blocks]
+                d["locals"] = list(locals_)
+            if _expand_combinator(prog, d, b, t, comb[0], depth, keep, inlinable, _seen | {fn.uid}):
+                changed = True
+                inlined_names.append(nm)
+            continue
         uid = cal.get("def") if isinstance(cal, dict) else None
         callee = prog.fns.get(uid) if uid else None
         if callee is None or cal.get("kind") not in ("direct", None, "trait-resolved", "resolved"):
